@@ -69,12 +69,26 @@ def leaf_harness(I, c):
 
 
 def attr_harness(I, c):
-    from ..symexec import SStr, SBool, SNone, Obligation, Unsupported
+    from ..symexec import SStr, SBool, SNone, PySeq, PyDict, Obligation, Unsupported
     qual = JSX + "_serialize_attr"
     obs = []
-    cases = [("None", SNone(), z3.StringVal("null")), ("True", SBool(z3.BoolVal(True)), z3.StringVal("true")), ("False", SBool(z3.BoolVal(False)), z3.StringVal("false"))]
+    T, F_ = (lambda: SBool(z3.BoolVal(True))), (lambda: SBool(z3.BoolVal(False)))
+    cases = [("None", SNone(), z3.StringVal("null")), ("True", T(), z3.StringVal("true")), ("False", F_(), z3.StringVal("false"))]
     xs = SStr(I.fresh("Str", "x"))
     cases.append(("str", xs, I.F("jsStr", xs.t)))
+    # sequences and dicts of scalars: every element written by the same rules, ", "-joined, in order (an element is never written by str())
+    cat = lambda *ts: z3.Concat(*ts)
+    SV = z3.StringVal
+    cases.append(("list[]", PySeq([], "list", False), SV("[]")))
+    cases.append(("tuple[None,str]", PySeq([SNone(), xs], "tuple", False), cat(SV("[null, "), I.F("jsStr", xs.t), SV("]"))))
+    for bv in (True, False):
+        b = lambda: SBool(z3.BoolVal(bv))
+        bjs = SV("true" if bv else "false")
+        cases.append((f"list[{bv}]", PySeq([b()], "list", False), cat(SV("["), bjs, SV("]"))))
+        cases.append((f"list[True,False,{bv}]", PySeq([T(), F_(), b()], "list", False), cat(SV("[true, false, "), bjs, SV("]"))))
+        cases.append((f"list[list[{bv}],None]", PySeq([PySeq([b()], "list", False), SNone()], "list", False), cat(SV("[["), bjs, SV("], null]"))))
+        cases.append((f"dict[on:[{bv}],off:None]", PyDict([(SStr(SV("on")), PySeq([b()], "tuple", False)), (SStr(SV("off")), SNone())], False),
+                      cat(SV('{"on": ['), bjs, SV('], "off": null}'))))
     for kind, v, want in cases:
         paths = _run(I, qual, {"x": v})
         obs.extend(I.obligations)
